@@ -179,7 +179,7 @@ reg('C19', 'exploration',
     'All 6 ordered pairs of {latin_1, cp500, cp037} x {vbs,1014}^2 (plus layout-only conversions with the same encoding on both sides) for mci_ipm_encode and mci_ipm_param_encode, both fixed '
     'directions x {blocked, unblocked} for mideu convert and paramconv, 12 (quick) / 150 (thorough) repetitions with fresh '
     'message lists (PDS entries, raw carriers, binary DE55, typed elements, all element subsets) and arbitrary-byte parameter '
-    'records (a third of the unblocked ones blank-padded with fill-valued bytes where a blocked file has its fill), one input of more than 1 MiB per tool runs with the documented default arguments and with the derived output name (input must stay unchanged): record count, order and values preserved (DE55 byte-identical), output well blocked, and the return conversion '
+    'records (a third of the unblocked ones blank-padded with fill-valued bytes where a blocked file has its fill; a third of the unblocked EBCDIC message files likewise start with a blank-filled record), one input of more than 1 MiB per tool runs with the documented default arguments and with the derived output name (input must stay unchanged): record count, order and values preserved (DE55 byte-identical), output well blocked, and the return conversion '
     'reproduces the input file byte for byte.',
     'Trusts vmon/ref/codec.py, vmon/ref/blocking.py; the three codecs are checked to be Latin-1 bijections at run time. For the '
     'legacy converter PDS data are library-packed (it re-packs PDS with the default configuration).')
